@@ -67,7 +67,8 @@ def work_replay(run, kv):
     mk = {"std": "0", "lf": "1", "ll": "2"}[f[1]]
     sk = {"both": "0", "un": "1", "an": "2"}[f[6]]
     p = core.sh([os.path.join(run.dir, "vwork-target", "debug", "vwork"), kv.get("kind", "dfa"), mk, f[2], f[3], sk, f[7],
-                 kv.get("hay", ""), kv.get("s", "0"), kv.get("e", "0"), kv.get("anchored", "0")], check=False, timeout=120)
+                 kv.get("hay", ""), kv.get("s", "0"), kv.get("e", "0"), kv.get("anchored", "0"),
+                 kv.get("ov", "0"), kv.get("pfcode", "0")], check=False, timeout=120)
     return p.returncode, p.stdout.strip()
 
 
